@@ -35,3 +35,12 @@ pub fn bundled_maps() -> Vec<(String, Vec<u8>)> {
     v.sort();
     v
 }
+
+/// Records the case about to be run (overwriting the previous record), so that when the
+/// implementation takes the whole process down (abort on allocation failure, stack overflow,
+/// segmentation fault: nothing `guarded` can catch) the check can still name the input.
+pub fn journal(desc: &str) {
+    if let Ok(p) = std::env::var("RMH_JOURNAL") {
+        let _ = std::fs::write(p, desc);
+    }
+}
